@@ -461,6 +461,24 @@ fn exec_inner(s: &mut CrdtSession, toks: &[&str], enc: TextEncoding) -> Vec<Stri
                 }
             }
             let hs: Vec<ChangeHash> = cs.iter().map(|c| c.hash()).collect();
+            // exactly the applied changes that are not ancestors of (or equal to) an applied hash in `have`;
+            // the ancestor closure is computed here from the deps of the changes as they were created
+            {
+                let mut anc: std::collections::BTreeSet<ChangeHash> = Default::default();
+                let mut stack: Vec<ChangeHash> = have.iter().filter(|h| all_before.contains(*h)).cloned().collect();
+                while let Some(h) = stack.pop() {
+                    if !anc.insert(h) { continue; }
+                    if let Some(c) = s.changes.get(&hex::encode(h.0)) { stack.extend(c.deps().iter().cloned()); }
+                }
+                let want: std::collections::BTreeSet<ChangeHash> = all_before.difference(&anc).cloned().collect();
+                let got: std::collections::BTreeSet<ChangeHash> = hs.iter().cloned().collect();
+                if got.len() != hs.len() { res.push("! C10 sig=duplicate get_changes returned a change twice".to_string()); }
+                if got != want {
+                    let extra = got.difference(&want).count();
+                    let lacking = want.difference(&got).count();
+                    res.push(format!("! C10 sig=not-exactly-non-ancestors get_changes(have) returned {} change(s) that are ancestors of have and omitted {} that are not", extra, lacking));
+                }
+            }
             res.insert(0, format!("ok {}", show_hashes(&hs)));
             res
         }
@@ -787,6 +805,13 @@ pub fn generate(r: &mut Rng, _opts: &BTreeMap<String, String>, sess: &mut Sessio
             if d.pending_ops() == 0 {
                 let own: Vec<String> = d.get_changes(&[]).iter().map(|c| hex::encode(c.hash().0)).collect();
                 if !own.is_empty() { let h = own[r.below(own.len() as u64) as usize].clone(); exec_line(sess, &format!("crdt.state_at {} {}", who, h), out); out.count("mid_history_state_at"); }
+                // and retrieval of the changes a peer at some past heads is missing (one hash, or a pair)
+                if !own.is_empty() && r.chance(1, 2) {
+                    let h = own[r.below(own.len() as u64) as usize].clone();
+                    let h2 = own[r.below(own.len() as u64) as usize].clone();
+                    let have = if r.chance(1, 2) || h == h2 { h } else { format!("{},{}", h, h2) };
+                    exec_line(sess, &format!("crdt.changes {} {}", who, have), out); out.count("mid_history_get_changes");
+                }
             }
         }
         match r.below(10) {
@@ -874,9 +899,11 @@ pub fn generate(r: &mut Rng, _opts: &BTreeMap<String, String>, sess: &mut Sessio
         exec_line(sess, "crdt.rollback lf", out);
         let own: Vec<String> = sess.crdt.replicas.get_mut("lf").unwrap().get_changes(&[]).iter().map(|c| hex::encode(c.hash().0)).collect();
         for _ in 0..5 { if own.is_empty() { break; } let h = own[r.below(own.len() as u64) as usize].clone(); exec_line(sess, &format!("crdt.state_at lf {}", h), out); }
+        for _ in 0..3 { if own.is_empty() { break; } let h = own[r.below(own.len() as u64) as usize].clone(); exec_line(sess, &format!("crdt.changes lf {}", h), out); }
         // and it keeps working: a committed change after the rollback, read back at its own past
         local_tx(r, sess, out, "lf", &mut ko, &mut scratch);
         for _ in 0..3 { if own.is_empty() { break; } let h = own[r.below(own.len() as u64) as usize].clone(); exec_line(sess, &format!("crdt.state_at lf {}", h), out); }
+        for _ in 0..2 { if own.is_empty() { break; } let h = own[r.below(own.len() as u64) as usize].clone(); exec_line(sess, &format!("crdt.changes lf {}", h), out); }
     }
     // historical reads at a few head sets taken from r0's own history (single hashes and pairs)
     let own: Vec<String> = sess.crdt.replicas.get_mut("r0").unwrap().get_changes(&[]).iter().map(|c| hex::encode(c.hash().0)).collect();
